@@ -236,6 +236,8 @@ Definition wf_a64_case (i r : sexp) : verdict :=
           match asm_wf cs with
           | Some why =>
               if inside then VViol ("class=asm-wf-theorem-contradicted " ++ why) else
+              (* known finding a64-branch-reach: B.cond / ADR beyond +-1 MiB (no branch relaxation in the back end) *)
+              if String.prefix "branch target out of range" why then VViol ("class=a64-branch-out-of-reach " ++ why) else
               match first_dup (defined_labels cs), pp with
               | Some l, Some pp => if name_digits pp then VViol ("class=label-collision-name-digits " ++ why)
                                    else VViol ("class=asm-ill-formed-a64 " ++ why)
